@@ -660,7 +660,8 @@ pub fn gen_struct(rng: &mut Rng, class: Class) -> Item {
         }
     }
 
-    if rng.chance(1, 8) {
+    let with_allow_unknown = rng.chance(1, 8);
+    if with_allow_unknown {
         let pos = rng.below(bodies.len() as u64 + 1) as usize;
         bodies.insert(pos, "o2o(allow_unknown)".into());
     }
@@ -737,7 +738,25 @@ pub fn gen_struct(rng: &mut Rng, class: Class) -> Item {
             item.members.push(Member { attrs, decl: field_decl(rng, item.shape, name, !item.generics.is_empty()) });
         }
     }
+    if with_allow_unknown {
+        add_silenced_instructions(rng, &mut item);
+    }
     item
+}
+
+/// What `#[o2o(allow_unknown)]` silences: bare instructions that belong elsewhere (the type
+/// is accepted *because* of the flag).
+fn add_silenced_instructions(rng: &mut Rng, item: &mut Item) {
+    if rng.chance(1, 2) {
+        let a = *rng.pick(&["#[parent]", "#[literal(1)]", "#[pattern(_)]", "#[type_hint(as ())]", "#[ghost(x)]", "#[child(a.b)]", "#[repeat]", "#[as_type(i32)]"]);
+        let pos = rng.below(item.type_attrs.len() as u64 + 1) as usize;
+        item.type_attrs.insert(pos, a.to_string());
+    }
+    if !item.members.is_empty() && rng.chance(2, 3) {
+        let mi = rng.below(item.members.len() as u64) as usize;
+        let a = *rng.pick(&["#[where_clause(T: Clone)]", "#[children(a: A)]", "#[child_parents(a: A)]", "#[allow_unknown]"]);
+        item.members[mi].attrs.push(a.to_string());
+    }
 }
 
 /// W5: enums -- variant renames, literal / pattern, type hints, ghosts, payload fields.
@@ -785,7 +804,8 @@ pub fn gen_enum(rng: &mut Rng, class: Class) -> Item {
     if !item.generics.is_empty() {
         where_attrs(rng, &cps, &mut bodies);
     }
-    if rng.chance(1, 8) {
+    let with_allow_unknown = rng.chance(1, 8);
+    if with_allow_unknown {
         let pos = rng.below(bodies.len() as u64 + 1) as usize;
         bodies.insert(pos, "o2o(allow_unknown)".into());
     }
@@ -875,6 +895,9 @@ pub fn gen_enum(rng: &mut Rng, class: Class) -> Item {
         };
         let attrs = wrap(attrs, rng);
         item.members.push(Member { attrs, decl });
+    }
+    if with_allow_unknown {
+        add_silenced_instructions(rng, &mut item);
     }
     item
 }
@@ -1060,14 +1083,33 @@ pub fn inject_misuse(rng: &mut Rng, item: &mut Item, which: usize) -> &'static s
             "member:name-value-attrs"
         },
         // ---- allow_unknown: silences the 'misplaced / misnamed' class
-        50 => {
-            let pos = rng.below(item.type_attrs.len() as u64 + 1) as usize;
+        50 | 51 => {
+            let pos = if which % N_MISUSES == 51 { 0 } else { rng.below(item.type_attrs.len() as u64 + 1) as usize };
             item.type_attrs.insert(pos, "#[o2o(allow_unknown)]".into());
+            // allow_unknown is only observable next to what it silences: misplaced / misnamed
+            // instructions in bare form, on the type and on members
+            if rng.chance(3, 4) {
+                let n = rng.range(1, 3);
+                for _ in 0..n {
+                    let w = *rng.pick(&[0usize, 1, 2, 3, 4, 5, 6, 7, 8, 9, 10, 11, 12, 26, 27, 28]);
+                    let before = item.n_attrs();
+                    inject_misuse(rng, item, w);
+                    let _ = before;
+                }
+                // the silenced class is the bare form only
+                for a in item.type_attrs.iter_mut() {
+                    if rng.chance(1, 2) {
+                        for name in ["parent", "as_type", "literal", "pattern", "repeat", "skip_repeat", "stop_repeat", "type_hint", "ghost", "ghost_ref", "ghost_owned", "child", "children"] {
+                            let own = format!("#[o2o({}", name);
+                            if a.starts_with(&own) && a.ends_with(")]") {
+                                *a = format!("#[{}]", &a[6..a.len() - 2]);
+                                break;
+                            }
+                        }
+                    }
+                }
+            }
             "type:allow_unknown"
-        },
-        51 => {
-            item.type_attrs.insert(0, "#[o2o(allow_unknown)]".into());
-            "type:allow_unknown-first"
         },
         _ => {
             // two default / duplicate dedicated member-level instructions
